@@ -62,7 +62,7 @@ def run(ctx):
             ctx.violation(v.bad, keep, "LambdaProp clause %s broken at trace line %d: %s" % (v.bad, v.line, lines[v.line - 1][:300]))
             return
     for need in ("init-datapoints", "init-error", "upstream-refused", "upstream-dropped", "other-records", "datapoint", "up:failall", "up:fail1", "up:slow"):
-        if named.get(need, 0) == 0:
+        if named.get(need, 0) == 0 and not (ctx.violations or locals().get("fails")):  # no vacuity verdict once something was found
             raise vlib.MachineryError("vacuity: %s never reached" % need)
     ctx.cov["named_situations"] = named
     ctx.cov["rule"] = ("hand-written core histories (three start-up failures; look-alike telemetry record types; refused, dropped, slow and "
